@@ -71,8 +71,9 @@ Record book := mk_book {
   b_status : status
 }.
 
+(* sort 0 stands for the sorts every logic predeclares (Bool, Int, Real): re-declaring them is refused *)
 Definition book_init : book :=
-  mk_book false false false false false false [] 0 [[]] [] tn_init df_init [] [] StUndef.
+  mk_book false false false false false false [] 0 [[]] [] tn_init df_init [] [0%N] StUndef.
 
 Definition level (b : book) : nat := length (b_frames b) - 1.
 
